@@ -7,474 +7,795 @@ match_bytes, the ISA names and the "-1 -> default" of reduce_to_section), osaca/
 `line_number in line_range`), osaca/parser/base_parser.py (parse_file: separator, first line number,
 blank test).
 
-Everything is located by shape (call of find_marked_section, assignment to the returned names, ...).
-A shape that is not found raises TranslateError: a broken tie, never a silent default.
+Extraction is SEMANTIC, not textual (helpers in astutil_G2.py; purely static, nothing of OSACA is imported
+or executed, there is no dynamic fallback):
+
+* every constant goes through a constant-expression evaluator (hex/octal/arithmetic spellings, string
+  concatenation, module-level names, tuples vs lists, dict literals in any order);
+* every function body is run through a symbolic path enumerator that substitutes local names by what they
+  were assigned (hoisted sub-expressions, renamed locals, tuple unpacking, conditional expressions), and
+  reports each effect together with the atomic facts of its path, so if/elif vs nested if vs guard clause
+  with continue/break/return, `a and b` vs nested tests, `not (x == y)` vs `x != y`, `while a and b` vs
+  `while a: if not b: break` all look the same;
+* a loop that filters and appends and a list comprehension are read into the same (target, iterable,
+  conditions, element) form;
+* parameters of find_marked_section get their role from how they are USED (compared with normalize_imd(..),
+  passed to match_bytes, ...), not from their names; the loop index, the line variable, the names of the
+  results are taken from the code.
+
+What is a fact of the behaviour is still insisted on: which comment key / mov value selects start and which
+end, every offset, every operand index per `reverse`, comparison operators of the facts that are read (==, <,
+is not None, in), the prefix comparison and the bound of match_bytes, the exceptions mapped to "no marker", the
+receiver of split / replace.  A shape that cannot be interpreted raises TranslateError: a broken tie, never a
+silent default.
 """
 import ast
+import os
+import sys
 
 from translate import TranslateError, generator, parse, find_func, txt, txt_list, HEADER
 
-
-# ------------------------------------------------------------------ small AST helpers
-def _const(node, types, what):
-    if isinstance(node, ast.Constant) and isinstance(node.value, types) and not isinstance(node.value, bool):
-        return node.value
-    if (isinstance(node, ast.UnaryOp) and isinstance(node.op, ast.USub) and isinstance(node.operand, ast.Constant)
-            and isinstance(node.operand.value, int) and int in (types if isinstance(types, tuple) else (types,))):
-        return -node.operand.value
-    raise TranslateError("%s: expected %s literal at line %s" % (what, types, getattr(node, "lineno", "?")))
-
-
-def _bool(node, what):
-    if isinstance(node, ast.Constant) and isinstance(node.value, bool):
-        return node.value
-    raise TranslateError("%s: expected True/False at line %s" % (what, getattr(node, "lineno", "?")))
-
-
-def _resolve(node, env):
-    """A Name bound to a literal earlier in the same function is replaced by that literal."""
-    if isinstance(node, ast.Name) and node.id in env:
-        return env[node.id]
-    return node
-
-
-def _local_env(fn):
-    env = {}
-    for st in fn.body:
-        if isinstance(st, ast.Assign) and len(st.targets) == 1 and isinstance(st.targets[0], ast.Name):
-            env[st.targets[0].id] = st.value
-    return env
-
-
-def _int_list(node, what):
-    if not isinstance(node, (ast.List, ast.Tuple)):
-        raise TranslateError("%s: expected list literal at line %s" % (what, getattr(node, "lineno", "?")))
-    return [_const(e, int, what) for e in node.elts]
-
-
-def _str_list(node, what):
-    if not isinstance(node, (ast.List, ast.Tuple)):
-        raise TranslateError("%s: expected list literal at line %s" % (what, getattr(node, "lineno", "?")))
-    return [_const(e, str, what) for e in node.elts]
-
-
-def _linear(node, what):
-    """Linear form {name: coeff, '': constant} of an expression built from names, ints, + and -."""
-    if isinstance(node, ast.Name):
-        return {node.id: 1}
-    if isinstance(node, ast.Constant) and isinstance(node.value, int) and not isinstance(node.value, bool):
-        return {"": node.value}
-    if isinstance(node, ast.UnaryOp) and isinstance(node.op, ast.USub):
-        return {k: -v for k, v in _linear(node.operand, what).items()}
-    if isinstance(node, ast.BinOp) and isinstance(node.op, (ast.Add, ast.Sub)):
-        a, b = _linear(node.left, what), _linear(node.right, what)
-        sign = 1 if isinstance(node.op, ast.Add) else -1
-        out = dict(a)
-        for k, v in b.items():
-            out[k] = out.get(k, 0) + sign * v
-        return {k: v for k, v in out.items() if v != 0 or k == ""}
-    if isinstance(node, ast.Call) and isinstance(node.func, ast.Name) and node.func.id == "len" and len(node.args) == 1 \
-            and isinstance(node.args[0], ast.Name):
-        return {"len(%s)" % node.args[0].id: 1}
-    raise TranslateError("%s: expression is not linear at line %s" % (what, getattr(node, "lineno", "?")))
-
-
-def _lean_int(v):
-    return "(%d : Int)" % v
+sys.path.insert(0, os.path.dirname(os.path.abspath(__file__)))
+import astutil_G2 as U  # noqa: E402
+from astutil_G2 import (Paths, State, atoms, ceval, cmp_atom, const_of, dump, fail, is_unpack, linear,  # noqa: E402
+                        lin_offset, method_call, name_call, subst, sym, sym_cmp, walk_exprs)
 
 
 def _int_list_lean(vs):
     return "[" + ", ".join(str(v) if v >= 0 else "(%d)" % v for v in vs) + "]"
 
 
-# ------------------------------------------------------------------ marker_utils.py
-def _marker_call(tree, fname, defaults):
-    """Arguments of the find_marked_section(...) call inside `fname`, with Names resolved."""
+def _is_name(node, name=None):
+    return isinstance(node, ast.Name) and (name is None or node.id == name)
+
+
+def _merge(dst, key, val, what):
+    """record a fact; two paths that state it must agree"""
+    if val is None:
+        return
+    if key in dst and dst[key] != val:
+        raise TranslateError("%s: inconsistent %s: %r vs %r" % (what, key, dst[key], val))
+    dst[key] = val
+
+
+def _int_seq(v, what):
+    if not isinstance(v, (list, tuple)) or any(not isinstance(x, int) or isinstance(x, bool) for x in v):
+        raise TranslateError("%s: expected a list of ints, got %r" % (what, v))
+    return list(v)
+
+
+def _str_seq(v, what):
+    if not isinstance(v, (list, tuple)) or any(not isinstance(x, str) for x in v):
+        raise TranslateError("%s: expected a list of strings, got %r" % (what, v))
+    return list(v)
+
+
+# ------------------------------------------------------------------ loops as (index, element) streams
+IDX = ast.Name(id="__idx__", ctx=ast.Load())   # 0-based position in the iterated sequence
+I = dump(IDX)
+
+
+def _indexed_loop(target, it, seq_ok):
+    """`for i, x in enumerate(S[, start])` or `for i in range(len(S))`: (bindings {i: __idx__ [+ start],
+    x: S[__idx__]}, S).  `seq_ok(S)` says whether S is acceptable."""
+    a = name_call(it, "enumerate")
+    if a is not None and isinstance(target, ast.Tuple) and len(target.elts) == 2 and all(_is_name(e) for e in target.elts):
+        start = None
+        if len(a) == 2 and not it.keywords:
+            start = a[1]
+        elif len(a) == 1 and len(it.keywords) == 1 and it.keywords[0].arg == "start":
+            start = it.keywords[0].value
+        elif not (len(a) == 1 and not it.keywords):
+            return None
+        if not seq_ok(a[0]):
+            return None
+        ivar, xvar = target.elts[0].id, target.elts[1].id
+        if ivar == xvar:
+            return None
+        elem = ast.Subscript(value=a[0], slice=IDX, ctx=ast.Load())
+        return {ivar: IDX if start is None else ast.BinOp(left=IDX, op=ast.Add(), right=start), xvar: elem}, a[0]
+    a = name_call(it, "range", 1)
+    if a is not None and _is_name(target) and not it.keywords:
+        b = name_call(a[0], "len", 1)
+        if b is not None and seq_ok(b[0]):
+            return {target.id: IDX}, b[0]
+    return None
+
+
+# ------------------------------------------------------------------ marker_utils.py: find_marked_section
+def _fms_shape(tree, menv):
+    """Index arithmetic, operand indices and parameter roles of find_marked_section."""
+    what = "find_marked_section"
+    fn = find_func(tree, what)
+    params, defaults = U.func_params(fn)
+    env = U.func_env(fn, menv)
+    # the statements before the loop, the loop, the return
+    loops = [st for st in fn.body if isinstance(st, (ast.For, ast.While))]
+    if len(loops) != 1 or not isinstance(loops[0], ast.For):
+        raise TranslateError("find_marked_section: expected exactly one top-level for loop")
+    loop = loops[0]
+    pre = Paths()
+    entry = pre.run(fn.body[:fn.body.index(loop)])
+    if len(entry) != 1:
+        raise TranslateError("find_marked_section: code before the loop branches")
+    entry = entry[0]
+    post = Paths()
+    post.run(fn.body[fn.body.index(loop) + 1:], [State((), {})])
+    rets = [e for e in post.events if e.kind == "return"]
+    if len(rets) != 1 or not isinstance(rets[0].value, ast.Tuple) or len(rets[0].value.elts) != 2 \
+            or not all(_is_name(e) for e in rets[0].value.elts):
+        raise TranslateError("find_marked_section: `return start, end` after the loop not found")
+    sname, ename = [e.id for e in rets[0].value.elts]
+    if sname == ename:
+        raise TranslateError("find_marked_section: start and end are the same name")
+    init = {}
+    for nm in (sname, ename):
+        if nm not in entry.binds:
+            raise TranslateError("find_marked_section: initial value of %s not found" % nm)
+        init[nm] = const_of(entry.binds[nm], env, int, "find_marked_section initial index")
+    if init[sname] != init[ename]:
+        raise TranslateError("find_marked_section: initial indices differ")
+    il = _indexed_loop(loop.target, subst(loop.iter, entry.binds), lambda s: _is_name(s) and s.id in params)
+    if il is None:
+        raise TranslateError("find_marked_section: `for i, line in enumerate(lines)` not found")
+    lbinds, seq = il
+    roles = {"lines": seq.id}
+    px = Paths()
+    px.run(loop.body, [px.loop_entry(loop, entry, lbinds)])
+
+    def line_at(node):
+        """k if node is lines[i + k]"""
+        if isinstance(node, ast.Subscript) and _is_name(node.value, roles["lines"]) and not isinstance(node.slice, ast.Slice):
+            try:
+                return lin_offset(linear(node.slice, env, "line index"), [I], "line index")
+            except TranslateError:
+                return None
+        return None
+
+    def line_attr(node, attr):
+        """k if node is lines[i + k].attr"""
+        if isinstance(node, ast.Attribute) and node.attr == attr:
+            return line_at(node.value)
+        return None
+
+    def param_of(node, role):
+        if not (_is_name(node) and node.id in params):
+            return False
+        _merge(roles, role, node.id, "find_marked_section parameter roles")
+        return True
+
+    res = {}
+    events = [e for e in px.events if e.kind == "assign" and e.name in (sname, ename) and not e.in_handler]
+    if not events:
+        raise TranslateError("find_marked_section: no assignment of the result indices in the loop")
+    seen = set()
+    for ev in events:
+        tgt = "start" if ev.name == sname else "end"
+        lin = linear(ev.value, env, "find_marked_section " + ev.name)
+        # --- is it a comment marker?   comments[key] == line.comment
+        ckey = None
+        for at in ev.conds:
+            for l, r in sym_cmp(at, ast.Eq):
+                if line_attr(l, "comment") == 0 and isinstance(r, ast.Subscript) and param_of(r.value, "comments"):
+                    ckey = const_of(r.slice, env, str, "comment marker key")
+        # --- or a byte marker?   truth of the first result of match_bytes(lines, i + k, nop_bytes)
+        mb = None
+        for node, pol in ev.conds:
+            if not pol:
+                continue
+            call = is_unpack(node, 0)
+            if call is None and isinstance(node, ast.Subscript) and not isinstance(node.slice, ast.Slice):
+                try:
+                    if ceval(node.slice, env) == 0:
+                        call = node.value
+                except TranslateError:
+                    pass
+            if call is not None and name_call(call, "match_bytes", 3) is not None and not call.keywords:
+                mb = call
+        if (ckey is None) == (mb is None):
+            raise TranslateError("find_marked_section: assignment of %s at line %s is neither on a comment-marker "
+                                 "nor on a byte-marker path" % (ev.name, ev.node.lineno))
+        if ckey is not None:
+            seen.add(("comment", tgt))
+            _merge(res, "%s_comment" % tgt, lin_offset(lin, [I], "comment " + tgt), what)
+            _merge(res, "%s_key" % tgt, ckey, what)
+            continue
+        seen.add(("mov", tgt))
+        a = mb.args
+        if not (_is_name(a[0], roles["lines"]) and param_of(a[2], "nop_bytes")):
+            raise TranslateError("find_marked_section: match_bytes is not called as match_bytes(lines, i + k, nop_bytes)")
+        _merge(res, "mb_off", lin_offset(linear(a[1], env, "match_bytes index"), [I], "match_bytes index"), what)
+        if tgt == "start":
+            lcs = [dump(U.unpack_node(mb, 1, 2)), dump(ast.Subscript(value=mb, slice=ast.Constant(value=1), ctx=ast.Load()))]
+            lc = [k for k in lin if k in lcs]
+            if len(lc) != 1:
+                raise TranslateError("find_marked_section: byte-marker start does not add the line count of match_bytes")
+            _merge(res, "start_bytes", lin_offset(lin, [I, lc[0]], "byte-marker start"), what)
+        else:
+            _merge(res, "end_bytes", lin_offset(lin, [I], "byte-marker end"), what)
+        # facts of the path: mnemonic in mov_instr, lines[i + k].directive is not None,
+        # parser.normalize_imd(SRC) == mov_vals[v], parser.get_full_reg_name(DST) == mov_reg
+        src = dst = None
+        got = set()
+        for at in ev.conds:
+            p = cmp_atom(at, ast.In)
+            if p is not None and line_attr(p[0], "mnemonic") == 0 and param_of(p[1], "mov_instr"):
+                got.add("mnemonic")
+            for l, r in sym_cmp(at, ast.IsNot):
+                k = line_attr(l, "directive")
+                if k is not None and isinstance(r, ast.Constant) and r.value is None:
+                    _merge(res, "look", k, what)
+                    got.add("look")
+            for l, r in sym_cmp(at, ast.Eq):
+                m = method_call(l, "normalize_imd", 1)
+                if m is not None and isinstance(r, ast.Subscript) and _is_name(r.value) and r.value.id in params:
+                    param_of(m[0], "parser")
+                    param_of(r.value, "mov_vals")
+                    _merge(res, "val_idx_%s" % tgt, const_of(r.slice, env, int, "mov_vals index"), what)
+                    src = m[1][0]
+                    got.add("imd")
+                m = method_call(l, "get_full_reg_name", 1)
+                if m is not None and _is_name(r) and r.id in params:
+                    param_of(m[0], "parser")
+                    param_of(r, "mov_reg")
+                    dst = m[1][0]
+                    got.add("reg")
+        missing = {"mnemonic", "look", "imd", "reg"} - got
+        if missing:
+            raise TranslateError("find_marked_section: byte-marker %s path lacks the tests %s" % (tgt, sorted(missing)))
+        # operand indices per value of `reverse`
+        idx = {}
+        for key, op in (("src", src), ("dst", dst)):
+            if not (isinstance(op, ast.Subscript) and line_attr(op.value, "operands") == 0
+                    and not isinstance(op.slice, ast.Slice)):
+                raise TranslateError("find_marked_section: %s operand is not line.operands[k]" % key)
+            idx[key] = op.slice
+        rev = {n.id for op in idx.values() for n in ast.walk(op) if isinstance(n, ast.Name)}
+        assumed = {}
+        for node, pol in ev.conds:
+            if _is_name(node) and node.id in params and node.id != roles.get("comments"):
+                rev.add(node.id)
+                assumed[node.id] = pol
+        if len(rev) != 1 or not rev <= set(params):
+            raise TranslateError("find_marked_section: operand indices do not depend on exactly one parameter: %r" % sorted(rev))
+        _merge(roles, "reverse", rev.pop(), "find_marked_section parameter roles")
+        for r in (False, True):
+            if assumed.get(roles["reverse"], r) != r:
+                continue
+            e2 = env.child({roles["reverse"]: r})
+            for key in ("src", "dst"):
+                _merge(res, "%s_idx%s" % (key, "_rev" if r else ""), const_of(idx[key], e2, int, "operand index"), what)
+    need = {("comment", "start"), ("comment", "end"), ("mov", "start"), ("mov", "end")}
+    if seen != need:
+        raise TranslateError("find_marked_section: marker paths not found: %s" % sorted(need - seen))
+    for k in ("src_idx", "src_idx_rev", "dst_idx", "dst_idx_rev"):
+        if k not in res:
+            raise TranslateError("find_marked_section: %s not determined" % k)
+    for r in ("lines", "parser", "mov_instr", "mov_reg", "mov_vals", "nop_bytes", "reverse", "comments"):
+        if r not in roles:
+            raise TranslateError("find_marked_section: no parameter plays the role %s" % r)
+    if len(set(roles.values())) != len(roles):
+        raise TranslateError("find_marked_section: one parameter plays two roles: %r" % roles)
+    res["init"] = init[sname]
+    return res, roles, params, defaults
+
+
+def _marker_call(tree, menv, fname, fms):
+    """Values of the arguments of the find_marked_section(...) call inside `fname`, by role."""
+    _, roles, params, defaults = fms
     fn = find_func(tree, fname)
-    env = _local_env(fn)
-    call = None
-    for node in ast.walk(fn):
-        if isinstance(node, ast.Call) and isinstance(node.func, ast.Name) and node.func.id == "find_marked_section":
-            call = node
-    if call is None:
-        raise TranslateError("%s: no call of find_marked_section" % fname)
-    names = ["lines", "parser", "mov_instr", "mov_reg", "mov_vals", "nop_bytes", "reverse", "comments"]
-    args = dict(defaults)
-    for i, a in enumerate(call.args):
-        args[names[i]] = _resolve(a, env)
-    for kw in call.keywords:
-        if kw.arg not in names:
-            raise TranslateError("%s: unexpected keyword %r" % (fname, kw.arg))
-        args[kw.arg] = _resolve(kw.value, env)
-    for n in names[2:]:
-        if n not in args:
-            raise TranslateError("%s: argument %s not given" % (fname, n))
-    parser = args["parser"]
-    if not (isinstance(parser, ast.Call) and isinstance(parser.func, ast.Name)):
+    env = U.func_env(fn, menv)
+    px = Paths()
+    px.run(fn.body)
+    calls = {}
+    for ev, n in walk_exprs(px.events):
+        if name_call(n, "find_marked_section") is not None:
+            calls[dump(n)] = n
+    if len(calls) != 1:
+        raise TranslateError("%s: expected one call of find_marked_section, found %d" % (fname, len(calls)))
+    args = U.bind_call(list(calls.values())[0], params, defaults, fname)
+    arg = {role: args[p] for role, p in roles.items()}
+    parser = arg["parser"]
+    if not (isinstance(parser, ast.Call) and isinstance(parser.func, ast.Name) and not parser.args and not parser.keywords):
         raise TranslateError("%s: parser argument is not a constructor call" % fname)
-    comments = args["comments"]
-    if isinstance(comments, ast.Constant) and comments.value is None:
-        use_comments = False
-    elif isinstance(comments, ast.Name) and comments.id == "COMMENT_MARKER":
-        use_comments = True
-    else:
-        raise TranslateError("%s: comments argument is neither COMMENT_MARKER nor None" % fname)
-    vals = _int_list(args["mov_vals"], fname + " mov_vals")
-    if len(vals) != 2:
-        raise TranslateError("%s: mov_vals must have two entries" % fname)
+    comments = const_of(arg["comments"], env, (dict, type(None)), fname + " comments")
+    vals = _int_seq(const_of(arg["mov_vals"], env, (list, tuple), fname + " mov_vals"), fname + " mov_vals")
+    rev = const_of(arg["reverse"], env, (bool, int), fname + " reverse")
+    if rev not in (0, 1):
+        raise TranslateError("%s: reverse is not a truth value" % fname)
     return {
         "parser": parser.func.id,
-        "mov_instr": _str_list(args["mov_instr"], fname + " mov_instr"),
-        "mov_reg": _const(args["mov_reg"], str, fname + " mov_reg"),
+        "mov_instr": _str_seq(const_of(arg["mov_instr"], env, (list, tuple), fname + " mov_instr"), fname + " mov_instr"),
+        "mov_reg": const_of(arg["mov_reg"], env, str, fname + " mov_reg"),
         "mov_vals": vals,
-        "nop_bytes": _int_list(args["nop_bytes"], fname + " nop_bytes"),
-        "reverse": _bool(args["reverse"], fname + " reverse"),
-        "comments": use_comments,
+        "nop_bytes": _int_seq(const_of(arg["nop_bytes"], env, (list, tuple), fname + " nop_bytes"), fname + " nop_bytes"),
+        "reverse": bool(rev),
+        "comments": comments,
     }
 
 
-def _fms_shape(tree):
-    """Index arithmetic and operand indices of find_marked_section."""
-    fn = find_func(tree, "find_marked_section")
-    # defaults of the signature
-    names = [a.arg for a in fn.args.args]
-    defaults = {}
-    for name, d in zip(names[len(names) - len(fn.args.defaults):], fn.args.defaults):
-        defaults[name] = d
-    loop = None
-    for st in fn.body:
-        if isinstance(st, ast.For) and isinstance(st.iter, ast.Call) and getattr(st.iter.func, "id", None) == "enumerate":
-            loop = st
-    if loop is None or not (isinstance(loop.target, ast.Tuple) and len(loop.target.elts) == 2):
-        raise TranslateError("find_marked_section: `for i, line in enumerate(lines)` not found")
-    ivar = loop.target.elts[0].id
-    # initial values of the two result names (the `return a, b` names)
-    ret = [st for st in fn.body if isinstance(st, ast.Return)]
-    if not ret or not isinstance(ret[-1].value, ast.Tuple) or len(ret[-1].value.elts) != 2:
-        raise TranslateError("find_marked_section: `return start, end` not found")
-    sname, ename = [e.id for e in ret[-1].value.elts]
-    init = {}
-    for st in fn.body:
-        if isinstance(st, ast.Assign) and isinstance(st.targets[0], ast.Name) and st.targets[0].id in (sname, ename):
-            init[st.targets[0].id] = _const(st.value, int, "initial index")
-    if init.get(sname) != init.get(ename) or sname not in init:
-        raise TranslateError("find_marked_section: initial indices differ or are missing")
-    # assignments inside the loop, split by the enclosing top-level branch (comment branch / mov branch)
-    tr = loop.body[0]
-    if not isinstance(tr, ast.Try) or not tr.body or not isinstance(tr.body[0], ast.If):
-        raise TranslateError("find_marked_section: loop body is not try/if")
-    top = tr.body[0]
-    if len(top.orelse) != 1 or not isinstance(top.orelse[0], ast.If):
-        raise TranslateError("find_marked_section: if/elif of comment and mov branch not found")
-    branches = {"comment": top.body, "mov": top.orelse[0].body}
-
-    def assigns(stmts, name):
-        out = []
-        for st in stmts:
-            for node in ast.walk(st):
-                if isinstance(node, ast.Assign) and isinstance(node.targets[0], ast.Name) and node.targets[0].id == name:
-                    out.append(_linear(node.value, "find_marked_section " + name))
-        return out
-
-    res = {}
-    for br, stmts in branches.items():
-        for nm, key in ((sname, "start"), (ename, "end")):
-            a = assigns(stmts, nm)
-            if len(a) != 1:
-                raise TranslateError("find_marked_section: expected one assignment of %s in the %s branch" % (nm, br))
-            res[(br, key)] = a[0]
-    # the line_count name: second element of the tuple returned by match_bytes
-    lc = None
-    for node in ast.walk(top.orelse[0]):
-        if isinstance(node, ast.Assign) and isinstance(node.value, ast.Call) and getattr(node.value.func, "id", None) == "match_bytes":
-            tgt = node.targets[0]
-            if isinstance(tgt, ast.Tuple) and len(tgt.elts) == 2:
-                lc = tgt.elts[1].id
-            mb = node.value
-            # match_bytes(lines, i + 1, nop_bytes): the index argument
-            idx = _linear(mb.args[1], "match_bytes index")
-            if set(idx) - {ivar, ""} or idx.get(ivar) != 1:
-                raise TranslateError("find_marked_section: match_bytes index is not i + k")
-            res.setdefault("mb_index", set()).add(idx.get("", 0))
-    if lc is None or len(res.get("mb_index", ())) != 1:
-        raise TranslateError("find_marked_section: match_bytes call shape not found")
-    out = {"init": init[sname], "mb_off": res["mb_index"].pop()}
-
-    def offs(lin, allow_lc, what):
-        extra = set(lin) - {ivar, "", lc if allow_lc else ivar}
-        if extra or lin.get(ivar) != 1 or (allow_lc and lin.get(lc) != 1):
-            raise TranslateError("find_marked_section: %s is not of the expected linear shape: %r" % (what, lin))
-        return lin.get("", 0)
-
-    out["start_comment"] = offs(res[("comment", "start")], False, "comment start")
-    out["end_comment"] = offs(res[("comment", "end")], False, "comment end")
-    out["start_bytes"] = offs(res[("mov", "start")], True, "byte-marker start")
-    out["end_bytes"] = offs(res[("mov", "end")], False, "byte-marker end")
-    # `len(lines) > i + 1 and lines[i + 1].directive is not None`: look-ahead distance
-    look = set()
-    for node in ast.walk(top.orelse[0].test):
-        if isinstance(node, ast.Subscript) and isinstance(node.value, ast.Name) and node.value.id == names[0]:
-            lin = _linear(node.slice, "look-ahead index")
-            if set(lin) - {ivar, ""} or lin.get(ivar) != 1:
-                raise TranslateError("find_marked_section: look-ahead index is not i + k")
-            look.add(lin.get("", 0))
-    if len(look) != 1:
-        raise TranslateError("find_marked_section: look-ahead `lines[i + 1].directive` not found")
-    out["look"] = look.pop()
-    # operand indices: line.operands[A if not reverse else B]
-    idxs = []
-    for node in ast.walk(top.orelse[0]):
-        if (isinstance(node, ast.Assign) and isinstance(node.value, ast.Subscript)
-                and isinstance(node.value.value, ast.Attribute) and node.value.value.attr == "operands"):
-            sl = node.value.slice
-            if not (isinstance(sl, ast.IfExp) and isinstance(sl.test, ast.UnaryOp) and isinstance(sl.test.op, ast.Not)
-                    and isinstance(sl.test.operand, ast.Name) and sl.test.operand.id == "reverse"):
-                raise TranslateError("find_marked_section: operand index is not `a if not reverse else b`")
-            idxs.append((node.targets[0].id, _const(sl.body, int, "operand index"), _const(sl.orelse, int, "operand index")))
-    if [n for n, _, _ in idxs] != ["source", "destination"]:
-        raise TranslateError("find_marked_section: source/destination operand selection not found")
-    out["src_idx"], out["src_idx_rev"] = idxs[0][1], idxs[0][2]
-    out["dst_idx"], out["dst_idx_rev"] = idxs[1][1], idxs[1][2]
-    # which mov_vals index selects start and which selects end
-    vals_idx = []
-    for node in ast.walk(top.orelse[0]):
-        if isinstance(node, ast.Subscript) and isinstance(node.value, ast.Name) and node.value.id == "mov_vals":
-            vals_idx.append(_const(node.slice, int, "mov_vals index"))
-    if len(vals_idx) != 2:
-        raise TranslateError("find_marked_section: expected two uses of mov_vals[k]")
-    out["val_idx_start"], out["val_idx_end"] = vals_idx
-    return out, defaults
+# ------------------------------------------------------------------ marker_utils.py: match_bytes
+def _loop_facts(loop, entry):
+    """Facts that hold whenever the body proper of a while loop runs: the conjuncts of the loop condition plus
+    the negations of leading `if c: break` guards (hoisted locals in between are substituted).
+    Returns (facts, state at the first statement that is not such a guard)."""
+    st = Paths().loop_entry(loop, entry)
+    test = subst(loop.test, st.binds)
+    try:
+        always = bool(ceval(test))
+    except TranslateError:
+        always = None
+    if always is False:
+        fail("while loop never runs", loop)
+    facts = [] if always else atoms(test, True)
+    stores = {}
+    for n in ast.walk(loop):
+        if isinstance(n, ast.Name) and isinstance(n.ctx, ast.Store):
+            stores[n.id] = stores.get(n.id, 0) + 1
+    for s in loop.body:
+        if isinstance(s, ast.Assign) and len(s.targets) == 1 and _is_name(s.targets[0]) and stores.get(s.targets[0].id) == 1:
+            st.binds[s.targets[0].id] = subst(s.value, st.binds)
+            continue
+        if isinstance(s, ast.If) and not s.orelse and [type(x) for x in s.body if not isinstance(x, ast.Pass)] == [ast.Break]:
+            facts += atoms(subst(s.test, st.binds), False)
+            continue
+        break
+    return facts, st
 
 
-def _match_bytes(tree):
+def _match_bytes(tree, menv):
     fn = find_func(tree, "match_bytes")
-    name = None
-    base = None
-    for node in ast.walk(fn):
-        if isinstance(node, ast.Compare) and len(node.ops) == 1 and isinstance(node.ops[0], ast.Eq):
-            l, r = node.left, node.comparators[0]
-            if isinstance(l, ast.Attribute) and l.attr == "name" and isinstance(r, ast.Constant) and isinstance(r.value, str):
-                name = r.value
-        if isinstance(node, ast.Call) and isinstance(node.func, ast.Name) and node.func.id == "int":
-            if len(node.args) == 2:
-                base = _const(node.args[1], int, "match_bytes int base")
-            elif len(node.args) == 1:
-                base = 10
-    if name is None or base is None:
-        raise TranslateError("match_bytes: directive name comparison or int(x, base) not found")
-    if base not in (0, 10):
-        raise TranslateError("match_bytes: int base %r is not modelled" % base)
-    # prefix comparison  extracted[0:len(byte_list)] == byte_list
-    prefix = False
-    for node in ast.walk(fn):
-        if isinstance(node, ast.Compare) and isinstance(node.left, ast.Subscript) and isinstance(node.left.slice, ast.Slice):
-            sl = node.left.slice
-            lo = 0 if sl.lower is None else _const(sl.lower, int, "match_bytes slice")
-            up = _linear(sl.upper, "match_bytes slice") if sl.upper is not None else None
-            if lo == 0 and up is not None and list(up.values()) == [1] and list(up)[0].startswith("len("):
-                prefix = True
-    if not prefix:
-        raise TranslateError("match_bytes: prefix comparison `bytes[0:len(list)] == list` not found")
-    # the loop stops once enough bytes are collected:  `... and len(extracted) < len(byte_list)`
-    loops = [n for n in ast.walk(fn) if isinstance(n, ast.While)]
-    if len(loops) != 1:
+    params, _ = U.func_params(fn)
+    if len(params) != 3:
+        raise TranslateError("match_bytes: expected the parameters (lines, index, byte_list)")
+    p_lines, p_index, p_bytes = params
+    env = U.func_env(fn, menv)
+    loops = [st for st in fn.body if isinstance(st, (ast.While, ast.For))]
+    if len(loops) != 1 or not isinstance(loops[0], ast.While) or loops[0].orelse:
         raise TranslateError("match_bytes: expected one while loop")
-    bounded = False
-    for node in ast.walk(loops[0].test):
-        if isinstance(node, ast.Compare) and len(node.ops) == 1 and isinstance(node.ops[0], ast.Lt):
-            a, b = _linear(node.left, "match_bytes bound"), _linear(node.comparators[0], "match_bytes bound")
-            if list(a.values()) == [1] and list(b.values()) == [1] and list(a)[0].startswith("len(") \
-                    and list(b)[0] == "len(%s)" % fn.args.args[2].arg and list(a)[0] != list(b)[0]:
-                bounded = True
-    if not bounded:
+    loop = loops[0]
+    pre = Paths()
+    entry = pre.run(fn.body[:fn.body.index(loop)])
+    if len(entry) != 1:
+        raise TranslateError("match_bytes: code before the loop branches")
+    facts, _ = _loop_facts(loop, entry[0])
+    # directive name and the bound  len(extracted) < len(byte_list)
+    want_name = sym("%s[%s].directive.name" % (p_lines, p_index))
+    len_bytes = sym("len(%s)" % p_bytes)
+    name = acc = None
+    for at in facts:
+        for l, r in sym_cmp(at, ast.Eq):
+            if dump(l) == want_name:
+                name = const_of(r, env, str, "match_bytes directive name")
+        p = cmp_atom(at, ast.Lt)
+        if p is not None and dump(p[1]) == len_bytes:
+            a = name_call(p[0], "len", 1)
+            if a is not None and _is_name(a[0]) and a[0].id != p_bytes:
+                acc = a[0].id
+    if name is None:
+        raise TranslateError("match_bytes: the loop does not test `lines[index].directive.name == <name>`")
+    if acc is None:
         raise TranslateError("match_bytes: loop is not bounded by `len(extracted) < len(byte_list)` "
                              "(byte lines after a complete marker would be swallowed)")
+    # int(x, base)
+    bases = set()
+    for node in ast.walk(fn):
+        if isinstance(node, ast.Call) and _is_name(node.func, "int"):
+            kw = {k.arg: k.value for k in node.keywords}
+            if len(node.args) == 2 and not kw:
+                bases.add(const_of(node.args[1], env, int, "match_bytes int base"))
+            elif len(node.args) == 1 and set(kw) == {"base"}:
+                bases.add(const_of(kw["base"], env, int, "match_bytes int base"))
+            elif len(node.args) == 1 and not kw:
+                bases.add(10)
+            else:
+                fail("match_bytes: call of int() not understood", node)
+    if len(bases) != 1:
+        raise TranslateError("match_bytes: int(x, base) not found or with several bases: %r" % sorted(bases))
+    base = bases.pop()
+    if base not in (0, 10):
+        raise TranslateError("match_bytes: int base %r is not modelled" % base)
     # a parameter that is no integer literal means "no marker": try/except (ValueError, TypeError) -> False
     caught = set()
-    for node in ast.walk(loops[0]):
+    for node in ast.walk(loop):
         if isinstance(node, ast.Try):
-            has_int = any(isinstance(n, ast.Call) and getattr(n.func, "id", None) == "int" for st in node.body for n in ast.walk(st))
+            has_int = any(isinstance(n, ast.Call) and _is_name(n.func, "int") for st in node.body for n in ast.walk(st))
             for h in node.handlers:
-                returns_false = any(isinstance(n, ast.Return) and isinstance(n.value, ast.Tuple) and n.value.elts
-                                    and isinstance(n.value.elts[0], ast.Constant) and n.value.elts[0].value is False
-                                    for st in h.body for n in ast.walk(st))
+                hp = Paths()
+                hp.run(h.body)
+                rets = [e for e in hp.events if e.kind == "return"]
+                returns_false = bool(rets) and all(
+                    isinstance(e.value, ast.Tuple) and e.value.elts and _const_is(e.value.elts[0], env, False) for e in rets)
                 if has_int and returns_false:
                     t = h.type
-                    for e in (t.elts if isinstance(t, ast.Tuple) else [t]):
+                    if t is None:
+                        caught.add("Exception")
+                    for e in (t.elts if isinstance(t, ast.Tuple) else [t] if t is not None else []):
                         if isinstance(e, ast.Name):
                             caught.add(e.id)
-    if not {"ValueError", "TypeError"} <= caught and "Exception" not in caught:
+    if not {"ValueError", "TypeError"} <= caught and "Exception" not in caught and "BaseException" not in caught:
         raise TranslateError("match_bytes: int() of a non-numeric .byte parameter is not mapped to `no marker` "
                              "(caught: %s)" % sorted(caught))
+    # after the loop:  return True, ...  exactly under  extracted[0:len(byte_list)] == byte_list
+    post = Paths()
+    post.run(fn.body[fn.body.index(loop) + 1:], [State((), {})])
+    hits = [e for e in post.events if e.kind == "return" and isinstance(e.value, ast.Tuple) and e.value.elts
+            and _const_is(e.value.elts[0], env, True)]
+    if not hits:
+        raise TranslateError("match_bytes: `return True, line_count` after the loop not found")
+    for e in hits:
+        ok = False
+        for at in e.conds:
+            for l, r in sym_cmp(at, ast.Eq):
+                if _is_name(r, p_bytes) and isinstance(l, ast.Subscript) and isinstance(l.slice, ast.Slice) \
+                        and _is_name(l.value, acc) and l.slice.step is None and l.slice.upper is not None \
+                        and (l.slice.lower is None or _const_is(l.slice.lower, env, 0)) \
+                        and linear(l.slice.upper, env, "match_bytes slice") == {len_bytes: 1, "": 0}:
+                    ok = True
+        if not ok:
+            raise TranslateError("match_bytes: prefix comparison `bytes[0:len(list)] == list` not found")
     return name, base
 
 
-def _reduce(tree):
-    fn = find_func(tree, "reduce_to_section")
-    isas = []
-    for node in ast.walk(fn):
-        if isinstance(node, ast.If) and isinstance(node.test, ast.Compare) and isinstance(node.test.left, ast.Name) \
-                and node.test.left.id == "isa" and isinstance(node.test.ops[0], ast.Eq):
-            isa = _const(node.test.comparators[0], str, "reduce_to_section isa")
-            callee = None
-            for sub in node.body:
-                for n in ast.walk(sub):
-                    if isinstance(n, ast.Call) and isinstance(n.func, ast.Name) and n.func.id.startswith("find_marked_kernel"):
-                        callee = n.func.id
-            if callee is None:
-                raise TranslateError("reduce_to_section: branch for %r calls no find_marked_kernel_*" % isa)
-            isas.append((isa, callee))
-    if len(isas) != 2:
-        raise TranslateError("reduce_to_section: expected two ISA branches, got %r" % isas)
-    lowered = any(isinstance(n, ast.Attribute) and n.attr == "lower" for n in ast.walk(fn))
-    # `if start == -1: start = 0`, `if end == -1: end = len(kernel)`, `return kernel[start:end]`
-    dflt = {}
-    for node in ast.walk(fn):
-        if isinstance(node, ast.If) and isinstance(node.test, ast.Compare) and isinstance(node.test.left, ast.Name) \
-                and node.test.left.id in ("start", "end") and isinstance(node.test.ops[0], ast.Eq):
-            sentinel = _const(node.test.comparators[0], int, "reduce_to_section sentinel")
-            if len(node.body) != 1 or not isinstance(node.body[0], ast.Assign):
-                raise TranslateError("reduce_to_section: default assignment not found")
-            dflt[node.test.left.id] = (sentinel, _linear(node.body[0].value, "reduce_to_section default"))
-    if set(dflt) != {"start", "end"}:
-        raise TranslateError("reduce_to_section: start/end defaults not found")
-    if dflt["start"][1] != {"": 0} or dflt["end"][1] != {"len(kernel)": 1}:
-        raise TranslateError("reduce_to_section: defaults are not 0 / len(kernel): %r" % (dflt,))
-    ret = [n for n in ast.walk(fn) if isinstance(n, ast.Return)]
-    ok = False
-    for r in ret:
-        v = r.value
-        if isinstance(v, ast.Subscript) and isinstance(v.slice, ast.Slice) and isinstance(v.slice.lower, ast.Name) \
-                and isinstance(v.slice.upper, ast.Name) and v.slice.lower.id == "start" and v.slice.upper.id == "end" \
-                and v.slice.step is None:
-            ok = True
-    if not ok:
-        raise TranslateError("reduce_to_section: `return kernel[start:end]` not found")
-    return isas, lowered, dflt["start"][0], dflt["end"][0]
+def _const_is(node, env, value):
+    try:
+        v = ceval(node, env)
+    except TranslateError:
+        return False
+    return type(v) is type(value) and v == value
 
 
-# ------------------------------------------------------------------ osaca.py / base_parser.py
-def _line_range(tree):
-    fn = find_func(tree, "get_line_range")
-    rep = None
-    splits = []
-    for node in ast.walk(fn):
-        if isinstance(node, ast.Call) and isinstance(node.func, ast.Attribute):
-            if node.func.attr == "replace" and len(node.args) == 2:
-                rep = (_const(node.args[0], str, "replace"), _const(node.args[1], str, "replace"))
-            if node.func.attr == "split" and len(node.args) == 1:
-                splits.append(_const(node.args[0], str, "split"))
-    if rep is None or len(rep[0]) != 1 or len(rep[1]) != 1:
-        raise TranslateError("get_line_range: single-character replace(a, b) not found")
-    if len(splits) != 3 or splits[1] != splits[2] or any(len(s) != 1 for s in splits):
-        raise TranslateError("get_line_range: expected split(list sep) and two split(range sep): %r" % splits)
-    # `"-" in line`
-    contains = None
-    for node in ast.walk(fn):
-        if isinstance(node, ast.If) and isinstance(node.test, ast.Compare) and isinstance(node.test.ops[0], ast.In):
-            contains = _const(node.test.left, str, "range test")
-    if contains != splits[1]:
-        raise TranslateError("get_line_range: range test character differs from the split character")
-    # start = int(line.split("-")[A]); end = int(line.split("-")[B]); range(start, end + K)
-    idx = {}
-    for node in ast.walk(fn):
-        if isinstance(node, ast.Assign) and isinstance(node.targets[0], ast.Name) and isinstance(node.value, ast.Call) \
-                and getattr(node.value.func, "id", None) == "int" and len(node.value.args) == 1 \
-                and isinstance(node.value.args[0], ast.Subscript):
-            idx[node.targets[0].id] = _const(node.value.args[0].slice, int, "range end index")
-    if set(idx) != {"start", "end"}:
-        raise TranslateError("get_line_range: start/end = int(split[k]) not found")
-    rng = None
-    for node in ast.walk(fn):
-        if isinstance(node, ast.Call) and getattr(node.func, "id", None) == "range" and len(node.args) == 2:
-            a, b = _linear(node.args[0], "range lower"), _linear(node.args[1], "range upper")
-            if a != {"start": 1} or set(b) - {"end", ""} or b.get("end") != 1:
-                raise TranslateError("get_line_range: range(start, end + k) not found")
-            rng = b.get("", 0)
-    if rng is None:
-        raise TranslateError("get_line_range: range(...) not found")
-    # inspect: `line.line_number in line_range`
+# ------------------------------------------------------------------ marker_utils.py: reduce_to_section
+def _reduce(tree, menv):
+    what = "reduce_to_section"
+    fn = find_func(tree, what)
+    params, _ = U.func_params(fn)
+    if len(params) != 2:
+        raise TranslateError("reduce_to_section: expected the parameters (kernel, isa)")
+    p_kernel, p_isa = params
+    env = U.func_env(fn, menv)
+    px = Paths()
+    px.run(fn.body)
+    if any(e.kind == "loop" for e in px.events):
+        raise TranslateError("reduce_to_section: loops are not interpreted")
+    rets = [e for e in px.events if e.kind == "return"]
+    if not rets:
+        raise TranslateError("reduce_to_section: no return")
+    isa_forms = {sym(p_isa): False, sym("%s.lower()" % p_isa): True}
+    len_kernel = sym("len(%s)" % p_kernel)
+    out = {}
+    callee_of, combos = {}, {}
+
+    def raw(node, k):
+        """the find_marked_kernel_* call if node is element k of its result"""
+        call = is_unpack(node, k)
+        if call is None and isinstance(node, ast.Subscript) and not isinstance(node.slice, ast.Slice) \
+                and _const_is(node.slice, env, k):
+            call = node.value
+        if isinstance(call, ast.Call) and isinstance(call.func, ast.Name) and call.func.id.startswith("find_marked_kernel") \
+                and len(call.args) == 1 and not call.keywords and _is_name(call.args[0], p_kernel):
+            return call.func.id
+        return None
+
+    for e in rets:
+        v = e.value
+        if not (isinstance(v, ast.Subscript) and isinstance(v.slice, ast.Slice) and _is_name(v.value, p_kernel)
+                and v.slice.step is None and v.slice.lower is not None):
+            raise TranslateError("reduce_to_section: `return kernel[start:end]` not found (line %s)" % e.node.lineno)
+        isa = None
+        for at in e.conds:
+            for l, r in sym_cmp(at, ast.Eq):
+                if dump(l) in isa_forms:
+                    if isa is not None:
+                        raise TranslateError("reduce_to_section: two ISA tests on one path")
+                    isa = const_of(r, env, str, "reduce_to_section isa")
+                    _merge(out, "lowered", isa_forms[dump(l)], what)
+        if isa is None:
+            raise TranslateError("reduce_to_section: a return is reached without an `isa == <name>` test")
+        sentinel_eq, sentinel_ne = {}, {}
+        for at in e.conds:
+            for op, dst in ((ast.Eq, sentinel_eq), (ast.NotEq, sentinel_ne)):
+                for l, r in sym_cmp(at, op):
+                    for k in (0, 1):
+                        c = raw(l, k)
+                        if c is not None:
+                            dst[k] = (c, const_of(r, env, int, "reduce_to_section sentinel"))
+        flags = []
+        for k, bound, key in ((0, v.slice.lower, "sent_start"), (1, v.slice.upper, "sent_end")):
+            c = raw(bound, k) if bound is not None else None
+            if c is not None:
+                if k not in sentinel_ne or sentinel_ne[k][0] != c:
+                    raise TranslateError("reduce_to_section: a found index is used without the `== -1` test")
+                _merge(out, key, sentinel_ne[k][1], what)
+                flags.append(False)
+            else:
+                if k == 0:
+                    dflt_ok = _const_is(bound, env, 0)
+                else:
+                    dflt_ok = bound is None or _const_is(bound, env, None) or dump(bound) == len_kernel
+                if not dflt_ok:
+                    raise TranslateError("reduce_to_section: defaults are not 0 / len(kernel)")
+                if k not in sentinel_eq:
+                    raise TranslateError("reduce_to_section: a default is used without the `== -1` test")
+                c = sentinel_eq[k][0]
+                _merge(out, key, sentinel_eq[k][1], what)
+                flags.append(True)
+            _merge(callee_of, isa, c, what)
+        combos.setdefault(isa, set()).add(tuple(flags))
+    for isa, cs in combos.items():
+        if cs != {(False, False), (False, True), (True, False), (True, True)}:
+            raise TranslateError("reduce_to_section: for %r not every combination of found / default is reachable" % isa)
+    if len(callee_of) != 2:
+        raise TranslateError("reduce_to_section: expected two ISA branches, got %r" % sorted(callee_of))
+    return sorted(callee_of.items()), out["lowered"], out["sent_start"], out["sent_end"]
+
+
+# ------------------------------------------------------------------ filter + map, as a loop or as a comprehension
+def _comprehension(node):
+    """(target, iterable, facts, element) of a one-generator list comprehension / generator expression"""
+    if isinstance(node, (ast.ListComp, ast.GeneratorExp)) and len(node.generators) == 1 and not node.generators[0].is_async:
+        g = node.generators[0]
+        facts = []
+        for c in g.ifs:
+            facts += atoms(c, True)
+        return g.target, g.iter, facts, node.elt
+    return None
+
+
+def _append_loop(loop, entry):
+    """(target, iterable, facts, element, accumulator name) of `for t in it: [if c:] acc.append(elem)` where
+    nothing else happens in the body (guards with `continue` are conditions)"""
+    if not isinstance(loop, ast.For) or loop.orelse:
+        return None
+    px = Paths()
+    st = px.loop_entry(loop, entry)
+    px.run(loop.body, [st])
+    eff = [e for e in px.events if e.kind not in ("continue", "assign")]
+    if len(eff) != 1 or eff[0].kind != "expr":
+        return None
+    m = method_call(eff[0].value, "append", 1)
+    if m is None or not _is_name(m[0]):
+        return None
+    return loop.target, subst(loop.iter, entry.binds), list(eff[0].conds), m[1][0], m[0].id
+
+
+# ------------------------------------------------------------------ osaca.py
+def _line_range(tree, menv):
+    what = "get_line_range"
+    fn = find_func(tree, what)
+    params, _ = U.func_params(fn)
+    if len(params) != 1:
+        raise TranslateError("get_line_range: expected one parameter")
+    p_str = params[0]
+    env = U.func_env(fn, menv)
+    loops = [st for st in fn.body if isinstance(st, (ast.For, ast.While))]
+    if len(loops) != 1 or not isinstance(loops[0], ast.For) or not _is_name(loops[0].target):
+        raise TranslateError("get_line_range: expected one `for line in ...` loop")
+    loop = loops[0]
+    pre = Paths()
+    entry = pre.run(fn.body[:fn.body.index(loop)])
+    if len(entry) != 1:
+        raise TranslateError("get_line_range: code before the loop branches")
+    it = subst(loop.iter, entry[0].binds)
+    m = method_call(it, "split", 1)
+    m2 = method_call(m[0], "replace", 2) if m is not None else None
+    if m2 is None or not _is_name(m2[0], p_str):
+        raise TranslateError("get_line_range: the loop does not run over line_str.replace(a, b).split(sep)")
+    rep = (const_of(m2[1][0], env, str, "replace"), const_of(m2[1][1], env, str, "replace"))
+    list_sep = const_of(m[1][0], env, str, "split")
+    if len(rep[0]) != 1 or len(rep[1]) != 1 or len(list_sep) != 1:
+        raise TranslateError("get_line_range: single-character replace(a, b) / split(sep) not found")
+    x = loop.target.id
+    px = Paths()
+    px.run(loop.body, [px.loop_entry(loop, entry[0])])
+    out = {}
+
+    def end_of(node, k_what):
+        """(separator, k) of int(line.split(sep)[k])"""
+        a = name_call(node, "int", 1)
+        if a is None or node.keywords or not isinstance(a[0], ast.Subscript) or isinstance(a[0].slice, ast.Slice):
+            return None
+        s = method_call(a[0].value, "split", 1)
+        if s is None or not _is_name(s[0], x):
+            return None
+        return const_of(s[1][0], env, str, "split"), const_of(a[0].slice, env, int, k_what)
+
+    ranges = {}
+    for ev, n in walk_exprs(px.events):
+        a = name_call(n, "range")
+        if a is None:
+            continue
+        contains = None
+        for at in ev.conds:
+            p = cmp_atom(at, ast.In)
+            if p is not None and _is_name(p[1], x):
+                contains = const_of(p[0], env, str, "range test")
+        if contains is None:
+            raise TranslateError("get_line_range: range(...) is not guarded by `<sep> in line`")
+        if len(a) != 2 or n.keywords:
+            raise TranslateError("get_line_range: range(start, end + k) not found")
+        lo = end_of(a[0], "range start index")
+        ints = [c for c in ast.walk(a[1]) if name_call(c, "int") is not None]
+        hi = end_of(ints[0], "range end index") if len(ints) == 1 else None
+        if lo is None or hi is None:
+            raise TranslateError("get_line_range: the range ends are not int(line.split(sep)[k])")
+        inc = lin_offset(linear(a[1], env, "range upper"), [dump(ints[0])], "range upper")
+        if not (contains == lo[0] == hi[0]):
+            raise TranslateError("get_line_range: range test character differs from the split character")
+        ranges[dump(n)] = (contains, lo[1], hi[1], inc)
+    if len(set(ranges.values())) != 1:
+        raise TranslateError("get_line_range: expected one range(start, end + k), found %d" % len(ranges))
+    range_sep, i_start, i_end, inc = list(ranges.values())[0]
+    if len(range_sep) != 1:
+        raise TranslateError("get_line_range: range separator is not a single character")
+    # inspect: kernel = [line for line in parsed_code if line.line_number in get_line_range(args.lines)]
     insp = find_func(tree, "inspect")
     sel = False
+    cands = []
     for node in ast.walk(insp):
-        if isinstance(node, ast.ListComp) and len(node.generators) == 1 and len(node.generators[0].ifs) == 1:
-            t = node.generators[0].ifs[0]
-            if isinstance(t, ast.Compare) and isinstance(t.ops[0], ast.In) and isinstance(t.left, ast.Attribute) \
-                    and t.left.attr == "line_number" and isinstance(node.elt, ast.Name) \
-                    and node.elt.id == node.generators[0].target.id:
-                sel = True
+        c = _comprehension(node)
+        if c is not None:
+            cands.append(c)
+        if isinstance(node, ast.For):
+            c = _append_loop(node, State())
+            if c is not None:
+                cands.append(c[:4])
+    for target, _it, facts, elt in cands:
+        if not (_is_name(target) and _is_name(elt, target.id) and len(facts) == 1):
+            continue
+        p = cmp_atom(facts[0], ast.In)
+        if p is None or not (isinstance(p[0], ast.Attribute) and p[0].attr == "line_number" and _is_name(p[0].value, target.id)):
+            continue
+        r = p[1]
+        if _is_name(r):
+            defs = [n.value for n in ast.walk(insp) if isinstance(n, ast.Assign) and any(_is_name(t, r.id) for t in n.targets)]
+            stores = [n for n in ast.walk(insp) if _is_name(n, r.id) and isinstance(n.ctx, ast.Store)]
+            r = defs[0] if len(defs) == 1 and len(stores) == 1 else None
+        if r is not None and name_call(r, "get_line_range", 1) is not None:
+            sel = True
     if not sel:
         raise TranslateError("inspect: `[line for line in parsed_code if line.line_number in line_range]` not found")
-    return rep, splits[0], splits[1], idx["start"], idx["end"], rng
+    return rep, list_sep, range_sep, i_start, i_end, inc
 
 
-def _parse_file(tree):
-    fn = find_func(tree, "parse_file", "BaseParser")
-    sep = None
-    first = None
-    blank = None
-    for node in ast.walk(fn):
-        if isinstance(node, ast.Call) and isinstance(node.func, ast.Attribute) and node.func.attr == "split" and node.args:
-            sep = _const(node.args[0], str, "parse_file split")
-        if isinstance(node, ast.Call) and isinstance(node.func, ast.Attribute) and node.func.attr == "parse_line" \
-                and len(node.args) == 2:
-            lin = _linear(node.args[1], "parse_file line number")
-            if set(lin) - {"i", "start_line", ""} or lin.get("i") != 1 or lin.get("start_line") != 1:
-                raise TranslateError("parse_file: line number is not i + k + start_line")
-            first = lin.get("", 0)
-        if isinstance(node, ast.If) and isinstance(node.test, ast.Compare) and isinstance(node.test.ops[0], ast.Eq):
-            l = node.test.left
-            if isinstance(l, ast.Call) and isinstance(l.func, ast.Attribute) and l.func.attr == "strip" and not l.args \
-                    and len(node.body) == 1 and isinstance(node.body[0], ast.Continue):
-                blank = _const(node.test.comparators[0], str, "parse_file blank test")
-    if sep is None or len(sep) != 1 or first is None or blank != "":
-        raise TranslateError("parse_file: split / `line.strip() == \"\"` / parse_line(line, i + k + start_line) not found")
-    start_default = None
-    names = [a.arg for a in fn.args.args]
-    for name, d in zip(names[len(names) - len(fn.args.defaults):], fn.args.defaults):
-        if name == "start_line":
-            start_default = _const(d, int, "start_line default")
-    if start_default is None:
-        raise TranslateError("parse_file: start_line default not found")
+# ------------------------------------------------------------------ base_parser.py
+def _parse_file(tree, menv):
+    what = "parse_file"
+    fn = find_func(tree, what, "BaseParser")
+    params, defaults = U.func_params(fn)
+    if len(params) < 2:
+        raise TranslateError("parse_file: expected (self, file_content, ...)")
+    p_self, p_content = params[0], params[1]
+    env = U.func_env(fn, menv, self_class="BaseParser")
+    loops = [st for st in fn.body if isinstance(st, (ast.For, ast.While))]
+    if len(loops) > 1:
+        raise TranslateError("parse_file: more than one loop")
+    if loops:
+        loop = loops[0]
+        pre = Paths()
+        entry = pre.run(fn.body[:fn.body.index(loop)])
+        if len(entry) != 1:
+            raise TranslateError("parse_file: code before the loop branches")
+        c = _append_loop(loop, entry[0])
+        if c is None:
+            raise TranslateError("parse_file: the loop is not `for i, line in enumerate(lines): [skip blank] append(parse_line(..))`")
+        target, it, facts, elt, acc = c
+        init = entry[0].binds.get(acc)
+        if init is None or not _const_is(init, env, []):
+            raise TranslateError("parse_file: the result list does not start empty")
+        post = Paths()
+        post.run(fn.body[fn.body.index(loop) + 1:], [State((), {})])
+        rets = [e for e in post.events if e.kind == "return"]
+        if len(rets) != 1 or not _is_name(rets[0].value, acc) or len(post.events) != 1:
+            raise TranslateError("parse_file: the collected list is not returned as it is")
+        il = _indexed_loop(target, it, lambda s: True)
+        lb = il[0] if il is not None else None
+        stored = U.stored_names(loop.body)
+        if lb is not None and stored & set(lb):
+            raise TranslateError("parse_file: the loop variables are reassigned")
+    else:
+        px = Paths()
+        px.run(fn.body)
+        rets = [e for e in px.events if e.kind == "return"]
+        c = _comprehension(rets[0].value) if len(rets) == 1 and not rets[0].conds else None
+        if c is None or not isinstance(rets[0].value, ast.ListComp) or any(e.kind in ("expr", "store", "raise") for e in px.events):
+            raise TranslateError("parse_file: neither a collecting loop nor `return [parse_line(..) for ..]`")
+        target, it, facts, elt = c
+        il = _indexed_loop(target, it, lambda s: True)
+        lb = il[0] if il is not None else None
+    if il is None:
+        raise TranslateError("parse_file: lines are not visited by `for i, line in enumerate(<lines>)`")
+    seq = il[1]
+    elt = subst(elt, lb)
+    facts = [(subst(n, lb), pol) for n, pol in facts]
+    m = method_call(seq, "split", 1)
+    if m is None or not _is_name(m[0], p_content):
+        raise TranslateError("parse_file: the lines are not file_content.split(sep)")
+    sep = const_of(m[1][0], env, str, "parse_file split")
+    if len(sep) != 1:
+        raise TranslateError("parse_file: separator is not a single character")
+    # the only condition: the stripped line is not empty
+    line = dump(ast.Subscript(value=seq, slice=IDX, ctx=ast.Load()))
+    stripped = dump(ast.Call(func=ast.Attribute(value=ast.Subscript(value=seq, slice=IDX, ctx=ast.Load()), attr="strip",
+                                                ctx=ast.Load()), args=[], keywords=[]))
+
+    def nonblank(at):
+        node, pol = at
+        if pol and dump(node) == stripped:
+            return True
+        for l, r in sym_cmp(at, ast.NotEq):
+            if dump(l) == stripped and _const_is(r, env, ""):
+                return True
+            a = name_call(l, "len", 1)
+            if a is not None and dump(a[0]) == stripped and _const_is(r, env, 0):
+                return True
+        p = cmp_atom(at, ast.Lt)
+        if p is not None and _const_is(p[0], env, 0):
+            a = name_call(p[1], "len", 1)
+            return a is not None and dump(a[0]) == stripped
+        return False
+
+    if len(facts) != 1 or not nonblank(facts[0]):
+        raise TranslateError("parse_file: the only filter must be `line.strip() != \"\"` (blank lines skipped but counted)")
+    m = method_call(elt, "parse_line", 2)
+    if m is None or not _is_name(m[0], p_self) or dump(m[1][0]) != line:
+        raise TranslateError("parse_file: the element is not self.parse_line(line, number)")
+    lin = linear(m[1][1], env, "parse_file line number")
+    ps = [p for p in params if dump(ast.Name(id=p, ctx=ast.Load())) in lin]
+    if len(ps) != 1 or ps[0] not in defaults:
+        raise TranslateError("parse_file: line number is not i + k + start_line")
+    first = lin_offset(lin, [I, dump(ast.Name(id=ps[0], ctx=ast.Load()))], "parse_file line number")
+    start_default = const_of(defaults[ps[0]], env, int, "start_line default")
     return sep, first, start_default
 
 
 @generator("MarkerConsts", ["osaca/semantics/marker_utils.py", "osaca/osaca.py", "osaca/parser/base_parser.py"])
 def gen_markerconsts():
     tm = parse("osaca/semantics/marker_utils.py")
-    # COMMENT_MARKER
-    cm = None
-    for st in tm.body:
-        if isinstance(st, ast.Assign) and isinstance(st.targets[0], ast.Name) and st.targets[0].id == "COMMENT_MARKER":
-            if not isinstance(st.value, ast.Dict):
-                raise TranslateError("COMMENT_MARKER is not a dict literal")
-            cm = {_const(k, str, "COMMENT_MARKER"): _const(v, str, "COMMENT_MARKER") for k, v in zip(st.value.keys, st.value.values)}
-    if cm is None or set(cm) != {"start", "end"}:
-        raise TranslateError("COMMENT_MARKER with keys start/end not found")
-    shape, defaults = _fms_shape(tm)
-    isas, lowered, sent_s, sent_e = _reduce(tm)
+    menv = U.module_env(tm)
+    fms = _fms_shape(tm, menv)
+    shape = fms[0]
+    isas, lowered, sent_s, sent_e = _reduce(tm, menv)
     if sent_s != shape["init"] or sent_e != shape["init"]:
         raise TranslateError("reduce_to_section tests %r/%r but find_marked_section starts from %r" % (sent_s, sent_e, shape["init"]))
     cfg = {}
     for isa, callee in isas:
-        cfg[isa] = _marker_call(tm, callee, defaults)
+        cfg[isa] = _marker_call(tm, menv, callee, fms)
     if set(cfg) != {"x86", "aarch64"}:
         raise TranslateError("reduce_to_section: ISA names %r" % sorted(cfg))
     expect_parser = {"x86": "ParserX86ATT", "aarch64": "ParserAArch64"}
     for isa in cfg:
         if cfg[isa]["parser"] != expect_parser[isa]:
             raise TranslateError("%s uses parser %s" % (isa, cfg[isa]["parser"]))
-    dname, base = _match_bytes(tm)
+        for k in (shape["val_idx_start"], shape["val_idx_end"]):
+            if not 0 <= k < len(cfg[isa]["mov_vals"]):
+                raise TranslateError("%s: mov_vals has no entry %d" % (isa, k))
+    # COMMENT_MARKER: the dict handed over as `comments` (one for both ISAs)
+    dicts = [c["comments"] for c in cfg.values() if c["comments"] is not None]
+    if not dicts:
+        try:
+            dicts = [menv.lookup("COMMENT_MARKER")]
+        except TranslateError:
+            raise TranslateError("COMMENT_MARKER not found")
+    cm = dicts[0]
+    if any(d != cm for d in dicts):
+        raise TranslateError("the ISAs use different comment markers (not modelled)")
+    ks, ke = shape["start_key"], shape["end_key"]
+    if not isinstance(cm, dict) or ks not in cm or ke not in cm or not all(isinstance(cm[k], str) for k in (ks, ke)):
+        raise TranslateError("COMMENT_MARKER with keys %r/%r not found" % (ks, ke))
+    for c in cfg.values():
+        c["comments"] = c["comments"] is not None
+    dname, base = _match_bytes(tm, menv)
     to = parse("osaca/osaca.py")
-    rep, list_sep, range_sep, i_start, i_end, inc = _line_range(to)
+    rep, list_sep, range_sep, i_start, i_end, inc = _line_range(to, U.module_env(to))
     tb = parse("osaca/parser/base_parser.py")
-    pf_sep, pf_first, pf_start = _parse_file(tb)
+    pf_sep, pf_first, pf_start = _parse_file(tb, U.module_env(tb))
 
     o = [HEADER, "namespace OsacaVerif.Gen\n"]
-    o.append("/-- `COMMENT_MARKER[\"start\"]` = %r -/" % cm["start"])
-    o.append("def commentStart : List Nat := %s" % txt(cm["start"]))
-    o.append("/-- `COMMENT_MARKER[\"end\"]` = %r -/" % cm["end"])
-    o.append("def commentEnd : List Nat := %s\n" % txt(cm["end"]))
+    o.append("/-- `COMMENT_MARKER[\"%s\"]` = %r -/" % (ks, cm[ks]))
+    o.append("def commentStart : List Nat := %s" % txt(cm[ks]))
+    o.append("/-- `COMMENT_MARKER[\"%s\"]` = %r -/" % (ke, cm[ke]))
+    o.append("def commentEnd : List Nat := %s\n" % txt(cm[ke]))
     for isa, pfx in (("x86", "x86"), ("aarch64", "a64")):
         c = cfg[isa]
         o.append("/-- arguments of the find_marked_section call for %s -/" % isa)
